@@ -438,6 +438,11 @@ op_merge::next (scon &sc) const
 	st.m_idx = 0;
     }
 
+  // Upstream is exhausted for now.  But it may be an origin that gets
+  // fed another stack later (sub-expression contexts, closures), so
+  // make sure that the next round starts afresh, at the first branch.
+  st.m_done = false;
+  st.m_idx = 0;
   return nullptr;
 }
 
